@@ -35,7 +35,8 @@ CHUNK = 2
 
 def BOUNDS(tier):
     return {"coefficient_lists": 1365, "origins": 4, "dtypes": len(DTYPES), "shapes": len(SHAPES),
-            "calibrations_per_array": len(CALS), "history_depth": 3 if tier == "quick" else 4}
+            "calibrations_per_array": len(CALS), "history_depth": 3 if tier == "quick" else 5,
+            "history_dtypes": 3 if tier == "quick" else len(DTYPES), "history_operations": 7}
 
 
 def cases(tier):
@@ -45,9 +46,10 @@ def cases(tier):
     for dt in DTYPES:
         for shp in SHAPES:
             yield {"k": "paths", "dtype": dt, "shape": list(shp)}
-    d = 3 if tier == "quick" else 4
-    for dt in ("int16", "float32", "uint64"):
-        yield {"k": "hist", "dtype": dt, "depth": d}
+    d = 3 if tier == "quick" else 5
+    for dt in (("int16", "float32", "uint64") if tier == "quick" else DTYPES):
+        for first in sorted(HOPS):         # one case per first operation: the work spreads over the workers
+            yield {"k": "hist", "dtype": dt, "depth": d, "first": first}
     for dt in ("int32", "float64"):
         yield {"k": "tags", "dtype": dt}
 
@@ -256,7 +258,8 @@ def run_hist(case, r):
         held = s.b.data_arrays["d"]
         held_view = held.get_slice([0, 0], [2, 2], nix.DataSliceMode.Index)
         for d in range(1, case["depth"] + 1):
-            for hist in itertools.product(sorted(HOPS), repeat=d):
+            for rest in itertools.product(sorted(HOPS), repeat=d - 1):
+                hist = (case["first"],) + rest
                 # reset
                 da.polynom_coefficients = None
                 da.expansion_origin = None
